@@ -29,6 +29,62 @@ def origin_moved(cr, tables, rng):
     return out
 
 
+def moved_by(cr, norm):
+    T = np.array([[float(v) for v in row] for row in norm["transformation"]])
+    P = np.array(cr["scaled_positions"]) @ T[:3, :3].T + T[:3, 3]
+    out = dict(cr)
+    out["scaled_positions"] = (P % 1.0).tolist()
+    return out
+
+
+def targeted_cases(build, rng, nid0=10 ** 6, max_targets=8):
+    """When a table clause about normalizer k of group sg no longer checks: crystals on which that entry
+    matters -- (i) occupations for which the model's search applies normalizer k, (ii) occupations of the
+    letters that normalizer k moves -- each in its standard description, seen from the origin of EVERY
+    tabulated normalizer of the group, and rotated/sheared/permuted.  All presentations of one crystal share
+    `base`, so the pair predicates of C06 compare them.  Returns (cases, summary)."""
+    from props.c14 import offenders_from_build
+    tables = build["tables"]
+    offs, _ = offenders_from_build(build)
+    tg = sorted({(o["sg"], o["k"]) for o in offs if o["clause"].startswith("norm-") and "k" in o})[:max_targets]
+    out, nid = [], nid0
+    for (sg, k) in tg:
+        norms = tables[2].get(sg, [])
+        if k >= len(norms):
+            continue
+        crs = list(targeted_crystals(tables, sg, k, rng, want=3))
+        lets = K.table_letters(tables, sg)
+        mult = {l: m for l, m, nf in lets}
+        gen = max(mult, key=lambda l: mult[l])
+        perm = norms[k]["permutations"]
+        movedl = [l for l in mult if perm.get(l, l) != l and l != gen]
+        rng.shuffle(movedl)
+        for l in movedl[:4]:
+            for pat in ([(l, None), (gen, None)], [(l, None), (perm[l], None), (gen, None)]):
+                if sum(mult[x] for x, _ in pat) > 120:
+                    continue
+                zs = rng.sample(K.SPECIES, len(pat))
+                pat = [(x, z) for (x, _), z in zip(pat, zs)]
+                cr = K.make_crystal(sg, rng, pat, tables)
+                if cr is not None and K.stable_group(cr) == sg:
+                    crs.append((cr, pat))
+        for cr, pat in crs:
+            base = nid
+            out.append({"id": nid, "sg": sg, "base": base, "crystal": cr, "pres": {"kind": "targeted", "normalizer": k, "pattern": pat}})
+            nid += 1
+            for j, n in enumerate(norms[:12]):
+                mv = moved_by(cr, n)
+                if K.stable_group(mv) == sg:
+                    out.append({"id": nid, "sg": sg, "base": base, "crystal": mv,
+                                "pres": {"kind": "targeted", "normalizer": k, "pattern": pat, "origin_moved_by_tabulated_normalizer": j}})
+                    nid += 1
+            pr, desc = K.represent(cr, rng, supercell=False)
+            if K.stable_group(pr) == sg:
+                out.append({"id": nid, "sg": sg, "base": base, "crystal": pr, "pres": {"kind": "targeted", "normalizer": k, "pattern": pat, "represented": True}})
+                nid += 1
+    return out, {"normalizers": tg, "crystals": len({c["base"] for c in out}), "presentations": len(out)}
+
+
 def family(ctx, tables, per_group, n_pres, max_atoms=120, groups=None):
     """per_group crystals in every space group, each with the base description + n_pres re-presentations."""
     rng = ctx.rng
@@ -64,6 +120,54 @@ def family(ctx, tables, per_group, n_pres, max_atoms=120, groups=None):
                 cases.append({"id": cid, "sg": sg, "base": base, "crystal": pr, "pres": d})
                 cid += 1
     return cases, disc
+
+
+def repeated_family(ctx, tables, n_groups, nid0=2 * 10 ** 6, max_atoms=120):
+    """Crystals in which ONE species sits on several orbits, among them two orbits of one free-parameter position
+    and one orbit of a position that some normalizer exchanges with it (unequal counts on a swappable pair): here the
+    ranking of the normalizer search depends on the COUNTS, not only on which (letter, species) pairs occur.  Each
+    crystal is presented from the origin of every tabulated normalizer (same interpreter, consecutive analyses)."""
+    rng = ctx.rng
+    cands = []
+    for sg in range(1, 231):
+        norms = tables[2].get(sg, [])
+        lets = K.table_letters(tables, sg)
+        mult = {l: m for l, m, nf in lets}
+        free = {l for l, m, nf in lets if nf > 0}
+        gen = max(mult, key=lambda l: mult[l])
+        pairs = sorted({(l, n["permutations"][l]) for n in norms for l in n["permutations"]
+                        if l in free and n["permutations"][l] != l and l != gen and n["permutations"][l] in mult})
+        if pairs:
+            cands.append((sg, pairs, mult, gen))
+    rng.shuffle(cands)
+    out, nid, disc = [], nid0, 0
+    for sg, pairs, mult, gen in cands[:n_groups]:
+        l, l2 = pairs[rng.randrange(len(pairs))]
+        z, z2 = rng.sample(K.SPECIES, 2)
+        pat = [(l, z), (l, z), (l2, z)]
+        if sum(mult[x] for x, _ in pat) + mult[gen] <= max_atoms and rng.random() < 0.5:
+            pat.append((gen, z2))
+        if sum(mult[x] for x, _ in pat) > max_atoms:
+            continue
+        cr = None
+        for _ in range(3):
+            cr = K.make_crystal(sg, rng, pat, tables)
+            if cr is not None and K.stable_group(cr) == sg:
+                break
+            cr = None
+            disc += 1
+        if cr is None:
+            continue
+        base = nid
+        out.append({"id": nid, "sg": sg, "base": base, "crystal": cr, "pres": {"kind": "repeated-species", "pattern": pat}})
+        nid += 1
+        for j, n in enumerate(tables[2].get(sg, [])[:6]):
+            mv = moved_by(cr, n)
+            if K.stable_group(mv) == sg:
+                out.append({"id": nid, "sg": sg, "base": base, "crystal": mv,
+                            "pres": {"kind": "repeated-species", "pattern": pat, "origin_moved_by_tabulated_normalizer": j}})
+                nid += 1
+    return out, disc
 
 
 def run_impl(cases, jobs=8, reuse=False):
@@ -281,24 +385,51 @@ def py_ground_state(perms, letters, numbers):
     return reps[0][0]
 
 
-def patterns_selecting(tables, sg, k, rng, max_atoms=120, limit=4):
-    """occupation patterns [(letter, Z)] of group sg for which normalizer k is the one the search applies"""
+def patterns_selecting(tables, sg, k, rng, max_atoms=120, limit=4, pin_group=True):
+    """occupation patterns [(letter, Z)] of group sg for which normalizer k is the one the search applies.
+    Patterns containing the position of highest multiplicity (the general position, which pins the space
+    group) are tried first; several species assignments are tried per letter combination."""
     import itertools
     lets = K.table_letters(tables, sg)
     perms = [n["permutations"] for n in tables[2].get(sg, [])]
     out = []
     names = [l for l, m, nf in lets]
     mult = {l: m for l, m, nf in lets}
-    combos = [c for r in (1, 2, 3) for c in itertools.combinations(names, r) if sum(mult[l] for l in c) <= max_atoms]
+    gen = max(names, key=lambda l: mult[l])
+    combos = [c for r in (1, 2, 3, 4) for c in itertools.combinations(names, r) if sum(mult[l] for l in c) <= max_atoms]
     rng.shuffle(combos)
-    for combo in combos[:4000]:
-        zs = rng.sample(K.SPECIES, len(combo))
-        letters, numbers = [], []
-        for l, z in zip(combo, zs):
-            letters += [l] * mult[l]
-            numbers += [z] * mult[l]
-        if py_ground_state(perms, letters, numbers) == k + 1:
-            out.append(list(zip(combo, zs)))
-            if len(out) >= limit:
+    if pin_group:
+        combos.sort(key=lambda c: 0 if gen in c else 1)
+    seen = set()
+    for combo in combos[:6000]:
+        for _ in range(3):
+            zs = rng.sample(K.SPECIES, len(combo))
+            letters, numbers = [], []
+            for l, z in zip(combo, zs):
+                letters += [l] * mult[l]
+                numbers += [z] * mult[l]
+            if py_ground_state(perms, letters, numbers) == k + 1:
+                key = (combo, tuple(sorted(range(len(zs)), key=lambda i: zs[i])))
+                if key in seen:
+                    continue
+                seen.add(key)
+                out.append(list(zip(combo, zs)))
                 break
+        if len(out) >= limit:
+            break
     return out
+
+
+def targeted_crystals(tables, sg, k, rng, want=4, max_atoms=120):
+    """crystals of group sg (confirmed by spglib over the tolerance window) whose occupation makes the model's
+    normalizer search apply normalizer k -- the inputs on which a wrong table entry for that normalizer shows"""
+    got = []
+    for pat in patterns_selecting(tables, sg, k, rng, max_atoms=max_atoms, limit=4 * want):
+        for _ in range(2):
+            cr = K.make_crystal(sg, rng, pat, tables)
+            if cr is not None and K.stable_group(cr) == sg:
+                got.append((cr, pat))
+                break
+        if len(got) >= want:
+            break
+    return got
